@@ -56,20 +56,38 @@ def int_value(s):
     return -v if neg else v
 
 
-def integer_lex(s: str) -> str:
+INT_POOL = ('0', '1', '9', '+', '-', '_', ' ', '\t', '.', 'e', 'a', '\u0663', '\xa0')    # incl. '_' , ARABIC-INDIC 3, NBSP
+
+
+def integer_lex(maxn: int, n: int, c0: int, c1: int, c2: int, c3: int) -> str:
     """
-    IntegerConverter.to_py(s) returns  =>  s is an xsd:integer literal, the value is the one it denotes, to_xml gives it back.
-    pre: len(s) <= 5
-    pre: xml_chars(s)
+    IntegerConverter.to_py(text) returns  =>  text is an xsd:integer literal, the result is the value it denotes and to_xml
+    gives a literal of that value; a literal is not rejected.  text = n <= maxn characters picked from INT_POOL by the selectors
+    (int() on a symbolic str is concretised by CrossHair, so the text is built from selectors instead).
+    pre: 0 <= maxn <= 4
+    pre: 0 <= n <= maxn
+    pre: 0 <= c0 < 13
+    pre: 0 <= c1 < 13
+    pre: 0 <= c2 < 13
+    pre: 0 <= c3 < 13
     post: __return__ == 'ok'
     """
+    idx = tuple(range(len(INT_POOL)))
+    n = pick(n, (0, 1, 2, 3, 4))
+    sel = [pick(c, idx) if i < n else 0 for i, c in enumerate((c0, c1, c2, c3))]
+    with untraced():
+        return _integer_lex(''.join(INT_POOL[i] for i in sel[:n]))
+
+
+def _integer_lex(text):
     orc = Oracle()
     try:
+        exp = int_value(text)
         try:
-            v = dc.IntegerConverter.to_py(s)
+            v = dc.IntegerConverter.to_py(text)
         except ValueError:
-            return 'ok'                   # rejected: fine for a non-literal ...
-        exp = int_value(s)
+            orc.check(exp is None, 'integer_literal_rejected')
+            return orc.result()
         if exp is None:
             orc.fail('integer_accepts_non_lexical')
             return orc.result()
@@ -80,52 +98,32 @@ def integer_lex(s: str) -> str:
     return orc.result()
 
 
-def integer_total(s: str) -> str:
-    """
-    ... and a literal is never rejected (digits only, optional sign; whitespace-free form).
-    pre: 1 <= len(s) <= 5
-    pre: xml_chars(s)
-    post: __return__ == 'ok'
-    """
-    orc = Oracle()
-    try:
-        exp = int_value(s)
-        if exp is None or collapse(s) != s:
-            return 'ok'
-        try:
-            v = dc.IntegerConverter.to_py(s)
-        except ValueError:
-            orc.fail('integer_literal_rejected')
-            return orc.result()
-        orc.check(v == exp, 'integer_wrong_value')
-    except Exception as ex:  # noqa: BLE001
-        return exc_result(orc, ex, 'integer_total')
-    return orc.result()
+BOOL_LITERALS = ('true', 'false', '1', '0')
 
 
 def boolean_lex(s: str) -> str:
     """
-    BooleanConverter.to_py(s) returns  =>  s is one of true/false/1/0 and the value is the one it denotes.
+    BooleanConverter.to_py(s) returns  =>  s (without surrounding XML whitespace) is one of true/false/1/0 and the result is
+    the value it denotes; to_xml gives a literal of that value; a literal is not rejected.
     pre: len(s) <= 5
-    pre: xml_chars(s)
     post: __return__ == 'ok'
     """
     orc = Oracle()
     try:
+        c = s.strip(' \t\n\r')
+        lexical = c == 'true' or c == 'false' or c == '1' or c == '0'
         try:
             v = dc.BooleanConverter.to_py(s)
         except ValueError:
-            c = collapse(s)
-            orc.check(not (c == 'true' or c == 'false' or c == '1' or c == '0'), 'boolean_literal_rejected')
+            orc.check(not lexical, 'boolean_literal_rejected')
             return orc.result()
-        c = collapse(s)
-        if not (c == 'true' or c == 'false' or c == '1' or c == '0'):
+        if not lexical:
             orc.fail('boolean_accepts_non_lexical')
             return orc.result()
-        orc.check(v == (c == 'true' or c == '1'), 'boolean_wrong_value')
+        truth = c == 'true' or c == '1'
+        orc.check(v == truth, 'boolean_wrong_value')
         x = dc.BooleanConverter.to_xml(v)
-        orc.check((x == 'true' or x == '1') == (c == 'true' or c == '1') and (x == 'true' or x == 'false' or x == '1' or x == '0'),
-                  'boolean_roundtrip_changed')
+        orc.check((x == 'true' or x == '1') if truth else (x == 'false' or x == '0'), 'boolean_roundtrip_changed')
     except Exception as ex:  # noqa: BLE001
         return exc_result(orc, ex, 'boolean_lex')
     return orc.result()
@@ -139,7 +137,6 @@ def enum_lex(which: int, s: str) -> str:
     EnumConverter(klass).to_py(s) returns  =>  s is exactly one of the literals of the enumeration and to_xml gives s back.
     pre: 0 <= which < 4
     pre: len(s) <= 5
-    pre: xml_chars(s)
     post: __return__ == 'ok'
     """
     orc = Oracle()
@@ -195,11 +192,12 @@ def dec_value(s):
     return -v if neg else v
 
 
-def decimal_lex(n: int, c0: int, c1: int, c2: int, c3: int) -> str:
+def decimal_lex(maxn: int, n: int, c0: int, c1: int, c2: int, c3: int) -> str:
     """
     DecimalConverter.to_py(text) returns  =>  text is an xsd:decimal literal and the Decimal has exactly its value.
-    text = n characters picked from DEC_POOL by the selectors.
-    pre: 0 <= n <= 4
+    text = n <= maxn characters picked from DEC_POOL by the selectors.
+    pre: 0 <= maxn <= 4
+    pre: 0 <= n <= maxn
     pre: 0 <= c0 < 14
     pre: 0 <= c1 < 14
     pre: 0 <= c2 < 14
